@@ -80,7 +80,21 @@ def check_unsat(formulas: List[Any], timeout_ms: int = 20000) -> Verdict:
     # brittle nonlinear / quantifier-free UF queries are decided in
     # milliseconds under one random seed and not in a minute under another:
     # try three seeds briefly before the slower back ends
-    for seed in (0, 7, 42):
+    # first with nonlinear monomials treated as uninterpreted (a weaker
+    # theory, so `unsat` is sound; anything else is ignored): with the lemma
+    # instances the contracts supply, most VCs are linear over those atoms
+    s0 = z3.Solver()
+    s0.set("timeout", first_ms)
+    s0.set("smt.arith.nl", False)
+    s0.add(*formulas)
+    if s0.check() == z3.unsat:
+        ms = (time.time() - t0) * 1000
+        STATS["z3_ms"] += ms
+        v = Verdict("proved", ms, "z3")
+        if USE_BOTH:
+            v = _cross_check(formulas, v, timeout_ms)
+        return v
+    for seed in (0,):
         s = z3.Solver()
         s.set("timeout", first_ms)
         if seed:
